@@ -7,8 +7,8 @@ TInit == l = 1 /\ bad = <<>> /\ have = {} /\ rows = {} /\ hist = <<>>
 MigEv ==
   /\ l <= Len(Trace)
   /\ LET e == Trace[l]  h == HistoryOK(e) IN
-       bad' = IF h.setup /\ h.idem /\ h.add /\ h.data /\ h.accept THEN bad
-              ELSE Append(bad, [i |-> l, case |-> e.case, setup |-> h.setup, idem |-> h.idem, add |-> h.add, data |-> h.data, accept |-> h.accept])
+       bad' = IF h.setup /\ h.idem /\ h.add /\ h.data /\ h.accept /\ h.shape THEN bad
+              ELSE Append(bad, [i |-> l, case |-> e.case, setup |-> h.setup, idem |-> h.idem, add |-> h.add, data |-> h.data, accept |-> h.accept, shape |-> h.shape])
   /\ l' = l + 1 /\ UNCHANGED <<have, rows, hist>>
 Finish ==
   /\ l = Len(Trace) + 1
